@@ -187,7 +187,15 @@ def main():
         "exhaustive": False,
     }
     if not (a.only or a.no_kani):  # partial development runs never overwrite the evidence of a full run
-        write_evidence(prop, a.tier, "model_checking", coverage, sorted(assumptions), wall, len(violations))
+        if coverage.get("distinct_nontrivial", 0) >= 2 and coverage.get("evaluations", 0) >= 1:
+            write_evidence(prop, a.tier, "model_checking", coverage, sorted(assumptions), wall, len(violations))
+        else:
+            # a run with fewer than two conclusive queries covered nothing worth recording: leave no (stale) evidence behind
+            try:
+                os.remove(os.path.join(common.EVIDENCE_DIR, prop + ".json"))
+            except OSError:
+                pass
+            say("   (no evidence written: fewer than two conclusive queries)")
     say("== %s tier=%s: %d queries, %d hold, %d violations, %d broken, %d known findings, %.0fs" % (
         prop, a.tier, queries, n_pass, len(violations), len(broken), len(known_hit), wall))
     common.cleanup()
